@@ -7,16 +7,21 @@
 (*   "padded" the same text with blanks around it (the CLI strips them)    *)
 (*   "inner"  text with a blank inside (kept)                              *)
 (*   "empty"  nothing between two separators (dropped)                     *)
+(*   "number" a Python number, not a text (only the Python entry has them) *)
 (* Requested[opt] is the token sequence the user typed for option opt.     *)
 (* The four stages are actions; the description that reaches Network(...)  *)
-(* must be the normalised request.                                         *)
+(* must be the normalised request.  There are two ENTRIES: the command     *)
+(* line (`naunet init`: split, strip, drop) and the Python classes         *)
+(* (BaseConfiguration / NetworkConfiguration, as Network.export and        *)
+(* scripts use them: nothing is split or stripped, what is given is what   *)
+(* is written).                                                            *)
 (***************************************************************************)
 EXTENDS Integers, Sequences, TLC
 
-CONSTANTS Variant      \* "asis" (repaired) | "bulk_key_typo" | "keep_padding"
+CONSTANTS Variant      \* "asis" (repaired) | "bulk_key_typo" | "keep_padding" | "numbers_shortened"
 
-VARIABLES req, parsed, toml, args, pc
-cvars == <<req, parsed, toml, args, pc>>
+VARIABLES req, parsed, toml, args, pc, entry
+cvars == <<req, parsed, toml, args, pc, entry>>
 
 ListOpts  == {"elements", "pseudo_elements", "allowed", "required", "files", "formats", "heating", "cooling"}
 TableOpts == {"replacement", "binding", "yield", "shielding", "rate_modifier", "ode_modifier"}   \* (an ODE-modifier token = species, position, factor and the dependency LIST with its repeats)
@@ -26,15 +31,20 @@ Norm(tok) == [shape |-> IF tok.shape = "padded" /\ Variant # "keep_padding" THEN
 Kept(s) == SelectSeq(s, LAMBDA t : t.shape # "empty")
 Expected(r) == [o \in DOMAIN r |-> IF o \in ScalarOpts THEN r[o] ELSE [k \in DOMAIN Kept(r[o]) |-> Norm(Kept(r[o])[k])]]
 
-CInit(r) == req = r /\ parsed = <<>> /\ toml = <<>> /\ args = <<>> /\ pc = "init"
+CInit(r) == req = r /\ parsed = <<>> /\ toml = <<>> /\ args = <<>> /\ pc = "init" /\ entry = "none"
 (* InitCommand.handle: split on the separator, strip, drop empties *)
-InitParse == pc = "init" /\ parsed' = Expected(req) /\ pc' = "content" /\ UNCHANGED <<req, toml, args>>
+InitParse == pc = "init" /\ parsed' = Expected(req) /\ pc' = "content" /\ entry' = "cli" /\ UNCHANGED <<req, toml, args>>
+(* BaseConfiguration(...) called from Python with values *)
+DirectWrite == pc = "init" /\ parsed' = req /\ pc' = "content" /\ entry' = "python" /\ UNCHANGED <<req, toml, args>>
+Shortened(d) == [o \in DOMAIN d |-> [k \in DOMAIN d[o] |-> IF d[o][k].shape = "number" THEN [shape |-> "plain", id |-> 0] ELSE d[o][k]]]
 (* BaseConfiguration.content *)
 Content == /\ pc = "content"
-           /\ toml' = IF Variant = "bulk_key_typo" THEN [parsed EXCEPT !["bulk"] = <<[shape |-> "plain", id |-> 0]>>] ELSE parsed
-           /\ pc' = "render" /\ UNCHANGED <<req, parsed, args>>
+           /\ toml' = IF Variant = "bulk_key_typo" THEN [parsed EXCEPT !["bulk"] = <<[shape |-> "plain", id |-> 0]>>]
+                      ELSE IF Variant = "numbers_shortened" THEN Shortened(parsed) ELSE parsed
+           /\ pc' = "render" /\ UNCHANGED <<req, parsed, args, entry>>
 (* RenderCommand.handle: read the TOML, build the keyword arguments *)
-RenderRead == pc = "render" /\ args' = toml /\ pc' = "done" /\ UNCHANGED <<req, parsed, toml>>
-CNext == InitParse \/ Content \/ RenderRead
-RoundTripId == pc = "done" => args = Expected(req)
+RenderRead == pc = "render" /\ args' = toml /\ pc' = "done" /\ UNCHANGED <<req, parsed, toml, entry>>
+CNext == InitParse \/ DirectWrite \/ Content \/ RenderRead
+Wanted == IF entry = "python" THEN req ELSE Expected(req)
+RoundTripId == pc = "done" => args = Wanted
 =============================================================================
